@@ -222,13 +222,18 @@ class CHECK(core.Check):
             "messages of <= 3 bytes (and 3 messages of <= 2 bytes), serviced L+1 times (L=2 quick, 4 thorough), "
             "kinds rotated; random: long histories, messages up to 40 bytes, scripts of up to 6 answers per feed. "
             "Non-trivial = at least one byte went through the double and some service call ended with data still "
-            "queued (partial send / would-block / loss) or delivered a chunk; distinct by the whole case.")
+            "queued (partial send / would-block / loss) or delivered a chunk; distinct by the whole case. About 2% of the "
+            "random cases run Incomer / Client / DeviceNb over a REAL non-blocking socketpair (send buffer 2304 bytes, "
+            "messages up to 12 kB, the harness plays the peer): the kernel's answers are recorded and replayed through "
+            "the model, and what the peer received is compared with what was queued.")
     TRUSTED = ["correspondence: the real Client/ClientTls/Incomer/IncomerTls/serial Driver objects run in-process over "
                "scripted doubles (socket, ssl context stub whose wrap_socket returns the double, os.write/os.read on a fake "
                "fd, pyserial stand-in) against the Lean driver `txqueue`, operation by operation",
                "the doubles stand for the kernel: a send accepts min(k, len) bytes or raises; TLS record layer, real "
                "sockets and real serial ports are not exercised",
-               "WireLog with buffify=True (BytesIO); log files on disk are not exercised"]
+               "WireLog with buffify=True (BytesIO); log files on disk are not exercised",
+               "real-socket cases use AF_UNIX socketpairs (partial sends, EAGAIN, EPIPE, EOF from a real kernel); TCP "
+               "loopback, TLS and real serial hardware are not exercised"]
     PARTIAL = ["errno classification is abstract in this model (accept / would-block / loss / other); the concrete errno "
                "ladders are property C25",
                "an error other than would-block/loss makes serviceTxes raise after popleft: the message in flight is "
@@ -297,7 +302,7 @@ class CHECK(core.Check):
         for _ in range(rng.choice([6, 10, 16])):
             x = rng.random()
             if x < 0.25:
-                ops.append(["txn", rng.choice([1, 100, 1500, 3000, 6000])])
+                ops.append(["txn", rng.choice([1, 100, 3000, 6000, 6000, 12000])])
             elif x < 0.50:
                 ops.append(["stx"])
             elif x < 0.65:
